@@ -526,6 +526,10 @@ func c07BatchData(k int) map[string][]byte {
 	if k%2 == 0 {
 		d[fmt.Sprintf("doc-%d-empty", k)] = []byte{}
 	}
+	if k%3 != 1 {
+		// the same content under a second name (a participant's partial signatures for the two are equal)
+		d[fmt.Sprintf("doc-%d-a-again", k)] = []byte(fmt.Sprintf("payload %d a", k))
+	}
 	return d
 }
 
